@@ -353,7 +353,7 @@ QueryPure == [][last'.act = "Query" => D' = D]_vars
 (* vacuity witnesses: expected to be violated *)
 NeverHit      == ~(last.act = "Query" /\ last.hit)
 NeverErrQuery == ~(last.act = "Query" /\ last.ret.kind # "ok")
-NeverFull     == Cardinality(DOMAIN cache) < Cardinality(Keys)
+NeverFull     == Cardinality(DOMAIN cache) < Cardinality(Comps \X (QueryPlats \cap InitPlats))
 
 ---------------------------------------------------------------------------
 (* State codes and emission for the conformance driver *)
